@@ -50,7 +50,7 @@ const MAX_STEPS: usize = 8;
 
 fn mat_for(abc: Abc, tier: Tier) -> BoxedStrategy<MatSpec> {
     let k = abc.k();
-    let lim = exact_limit(abc, tier).min(if abc == Abc::Dna { tier.pick(8, 12) } else { 3 });
+    let lim = exact_limit(abc, tier).min(if abc == Abc::Dna { tier.pick(8, 10) } else { 3 });
     (2usize..=lim)
         .prop_flat_map(move |m| {
             let lib = mat_strategy(abc, Just(m).boxed(), Regimes { library: true, finite: false, neginf: false, small_int: false, near_tie: false });
@@ -255,7 +255,7 @@ impl Sub for PvalueRanges {
         "DNA width 2..8 (quick) / ..12 (thorough), protein 2..3; library-made and arbitrary finite matrices (wildcard column -inf, = row minimum, or arbitrary finite) x uniform / non-uniform backgrounds; 6..12 scores per matrix (below min, min, exactly attainable, just above attainable, between, max, above max, arbitrary); approximate_pvalue driven for at most 8 refinement steps; every step: 0 <= pmin <= pmax <= total mass, P(S>=s+(M+1)g) <= pmin, pmax <= P(S>=s-(M+2)g) against exact meet-in-the-middle enumeration over the real symbols; pvalue() checked when the bounded run converged; non-trivial = M >= 3, a query strictly inside (min, max) and >= 2 refinement steps"
     }
     fn cases(&self, tier: Tier) -> u64 {
-        tier.pick(20_000, 400_000)
+        tier.pick(20_000, 150_000)
     }
     fn strategy(&self, tier: Tier) -> BoxedStrategy<Case> {
         strategy(tier)
@@ -434,7 +434,7 @@ impl Sub for ScoreThresholds {
         "same matrices as C12; 6..12 p-values per matrix (exact tail probabilities of attainable scores, values between two neighbouring tails, below the smallest tail, near 1, arbitrary); approximate_score driven for at most 8 steps; every step with d=(M+2)g: P(S>=t+d) <= p and, with u the largest positive-probability score below t-d, P(S>=u-d) >= p, against exact enumeration; non-trivial = M >= 3 and a p strictly between the smallest tail and 1"
     }
     fn cases(&self, tier: Tier) -> u64 {
-        tier.pick(20_000, 400_000)
+        tier.pick(20_000, 150_000)
     }
     fn strategy(&self, tier: Tier) -> BoxedStrategy<Case> {
         strategy(tier)
